@@ -45,6 +45,48 @@ def _window():
         invariants_note="MC config also checks NoLeakI (the I-layer never leaks) and POracleTotal; `lead` records P-clauses the I-layer fails")
 
 
+def _rowframe(prop):
+    from drivers import rowframe
+
+    def variants(tier, r, cin):
+        return list(rowframe.VARIANTS) if tier == "thorough" else [r.choice(rowframe.VARIANTS)]
+
+    return runner.PureSpec(
+        prop=prop, module="RowFrame", trace_module="RowFrameTrace", driver="drivers.rowframe",
+        cfg={"quick": "RowFrame_quick.cfg", "thorough": "RowFrame_thorough.cfg"},
+        sample={"quick": 1500, "thorough": None}, variants=variants,
+        spec_files=["RowFrame.tla", "RowFrameDefs.tla", "RowFrameTrace.tla"],
+        rule="every pattern of <= MaxRows rows over temperature {finite, NaN, +inf, -inf} x usage {value, missing}, daily and billing, "
+             "enumerated by TLC; each is embedded (daily: a day per row, padded to 0/30/120/366 days; billing: a calendar month per row) in a real "
+             "reporting frame and predicted with a constructed integer-coefficient document; non-trivial = at least one masked row",
+        assumptions=["integer temperatures, usage and coefficients make every value exact in binary64, so sums are compared as integers by TLC",
+                     "usage counts as supplied when at least one row has a value (the data classes drop an all-empty observed column)",
+                     "single-sub-model documents here; routing among sub-models is C13's question",
+                     "non-finite usage (inf) is outside C07's quantifier and not generated"],
+        invariants_note="MC config checks that the P-layer's own expected outcome satisfies every clause (oracle self-consistency)")
+
+
+def _agg():
+    from drivers import agg
+
+    def variants(tier, r, cin):
+        return list(agg.VARIANTS) if tier == "thorough" else [r.choice(agg.VARIANTS)]
+
+    return runner.PureSpec(
+        prop="C19", module="Agg", trace_module="AggTrace", driver="drivers.agg", keep='pc = "done"',
+        cfg={"quick": "Agg_quick.cfg", "thorough": "Agg_thorough.cfg"}, sample={"quick": 700, "thorough": None}, variants=variants,
+        spec_files=["Agg.tla", "AggDefs.tla", "AggTrace.tla", "Cal.tla"], in_field="lay",
+        rule="every layout (start date incl. month ends and a leap day, span 1..150 days, temperature-gap pattern, observed pattern, aggregation "
+             "argument incl. 3-6 invalid spellings) enumerated by TLC with the civil calendar of Cal.tla; each is realised as a billing reporting "
+             "object in 4 zones and predicted at the daily level and with the argument; non-trivial = more than one period, or a rejected argument",
+        assumptions=["the daily rows of the same model and data (aggregation=None) are the abstract input of the aggregation clauses",
+                     "integer temperatures / coefficients / usage make sums exact; observed sums are only demanded where the data class kept "
+                     "the per-day usage integer (no DST change inside a billing month)",
+                     "temperature means are snapped with Fraction.limit_denominator(1000) and compared by cross-multiplication; "
+                     "uncertainty is compared squared"],
+        invariants_note="MC config checks oracle self-consistency, equal grand totals at the monthly and bi-monthly level, and the period count")
+
+
 class LifeEntry:
     def __init__(self, prop):
         self.prop = prop
@@ -62,7 +104,7 @@ class LifeEntry:
         return lifeprops.selftest(self.prop)
 
 
-_REG = {"C20": lambda: PureEntry(_window())}
+_REG = {"C20": lambda: PureEntry(_window()), "C07": lambda: PureEntry(_rowframe("C07")), "C19": lambda: PureEntry(_agg())}
 for _p in ("C01", "C02", "C03", "C04", "C05"):
     _REG[_p] = (lambda p: (lambda: LifeEntry(p)))(_p)
 
